@@ -338,6 +338,56 @@ R.contract(
 R.spec_funcs["effective"] = lambda it, schema, operation: [k for r in (operation.fields["definition"].fields["raw"]["security"] if "security" in operation.fields["definition"].fields["raw"] else schema.get("security", [])) for k in r]
 
 
+# ------------------------------------------------------------------------------------------------- collect_parameters: every documented parameter and every payload variant becomes a parameter of the operation
+OAS_ = "schemathesis.specs.openapi.schemas:"
+PMS = "schemathesis.specs.openapi.parameters:"
+R.exception_classes.setdefault("InvalidSchema", "schemathesis.core.errors:InvalidSchema")
+R.contract(OAS_ + "check_header", args={"parameter": Opq("Any")}, returns=NoneT, raises=["InvalidSchema"], trusted=True, effects={"header_checked": "ghost('header_checked') + [parameter]"},
+           note="rejects header names that cannot be sent (empty, non-ASCII, control characters)")
+_ParamDefs = ListOf(OneOf(DictOf(required={"name": Str, "in": Choice("query", "path")}), DictOf(required={"name": Str, "in": Choice("header", "cookie")})), [0, 1, 2])
+R.contract(
+    OAS_ + "OpenApi30.collect_parameters",
+    prop="C08",
+    args={"self": Opq("OpenApi30SchemaRef"), "parameters": _ParamDefs,
+          "definition": DictOf(optional={"requestBody": DictOf(required={"content": DictOf(optional={"application/json": Opq("MediaTypeObj"), "text/plain": Opq("MediaTypeObj")})}, optional={"required": Bool, "description": Str})})},
+    ghost={"header_checked": []},
+    raises=["InvalidSchema"],
+    ensures={
+        # every documented parameter becomes exactly one parameter with ITS definition, in order, and every media type of the request body one payload variant
+        "one_parameter_per_definition_in_order": "all(is_instance(result[i], 'OpenAPI30Parameter') and result[i].definition is parameters[i] for i in range(length(parameters)))",
+        "one_payload_variant_per_media_type_with_the_bodys_required_flag": "length(result) == length(parameters) + (length(definition['requestBody']['content']) if 'requestBody' in definition else 0) and "
+            "all(any(is_instance(b, 'OpenAPI30Body') and b.media_type == mt and b.definition is definition['requestBody']['content'][mt] and "
+            "same_flag(b.required, definition['requestBody'].get('required', False)) for b in result[length(parameters):]) for mt in (definition['requestBody']['content'] if 'requestBody' in definition else []))",
+        "header_and_cookie_names_are_checked": "all(any(h is p for h in ghost('header_checked')) for p in parameters if p['in'] in ('header', 'cookie'))",
+    },
+    bounded_note="up to 2 parameters, up to 2 media types",
+    replayable=False,
+)
+R.spec_funcs["same_flag"] = lambda it, a, b: __import__("pyvc.ops", fromlist=["eq"]).eq(a, b)
+R.nominal_methods["spec:Swagger2Schema"] = {"_get_consumes_for_operation": lambda it, obj, a, k: obj.fields["consumes"]}
+_S2Defs = ListOf(OneOf(DictOf(required={"name": Str, "in": Const("query")}), DictOf(required={"name": Str, "in": Const("body"), "schema": Opq("BodySchema")}), DictOf(required={"name": Str, "in": Const("formData")})), [0, 1, 2, 3], widen=False)
+R.contract(PMS + "OpenAPI20CompositeBody.from_parameters", abstract_only=True, args={}, returns=lambda it, env: ("composite", tuple(env.get("parameters", ()) or ()), env.get("media_type")), note="one composite body out of the formData parameters")
+R.contract(
+    OAS_ + "SwaggerV20.collect_parameters",
+    prop="C08",
+    args={"self": Obj("spec:Swagger2Schema", consumes=Choice((), ("application/xml",), ("application/json", "application/x-www-form-urlencoded"))), "parameters": _S2Defs, "definition": Opq("OperationDefinitionRef")},
+    ghost={"header_checked": []},
+    raises=["InvalidSchema"],
+    ensures={
+        # Swagger 2: every non-body parameter once; the `body` parameter once per consumed media type (application/json when none is declared); ALL formData parameters together as one
+        # composite payload per consumed media type (multipart/form-data when none is declared)
+        "every_plain_parameter_once_with_its_definition": "all(length([r for r in result if is_instance(r, 'OpenAPI20Parameter') and not is_instance(r, 'OpenAPI20Body') and r.definition is p]) == 1 for p in parameters if p['in'] == 'query')",
+        "body_parameter_once_per_media_type": "all(sorted_texts([r.media_type for r in result if is_instance(r, 'OpenAPI20Body') and r.definition is p]) == sorted_texts(list(self.consumes) if length(self.consumes) > 0 else ['application/json']) "
+                                              "for p in parameters if p['in'] == 'body')",
+        "form_parameters_joined_into_one_payload_per_media_type": "[r for r in result if is_tuple(r)] == [('composite', tuple_of([p for p in parameters if p['in'] == 'formData']), mt) "
+            "for mt in (self.consumes if length(self.consumes) > 0 else ('multipart/form-data',))] if any(p['in'] == 'formData' for p in parameters) else not any(is_tuple(r) for r in result)",
+    },
+    bounded_note="up to 3 parameters, three `consumes` declarations",
+    replayable=False,
+)
+R.spec_funcs.update({"is_tuple": lambda it, v: isinstance(v, tuple), "tuple_of": lambda it, xs: tuple(xs), "sorted_texts": lambda it, xs: sorted(xs)})
+
+
 # ------------------------------------------------------------------------------------------------- resolve_all: every reference in a definition is replaced by what it points to
 REFS = "schemathesis.specs.openapi.references:"
 _TABLE = {"#/components/x": {"type": "string", "maxLength": 3}, "#/components/y": {"$ref": "#/components/x"},
